@@ -184,7 +184,7 @@ func C13() *engine.Check {
 	return &engine.Check{
 		Property: "C13",
 		Level:    "model_checking",
-		Subs:     []*engine.Sub{main, nonString, c13ConcSub()},
+		Subs:     []*engine.Sub{main, nonString, c13ConcSub(), concRaceSub("C13")},
 		Assumptions: []string{
 			`alphabet {a,b,*,\}: two ordinary characters plus the two special ones; bytes outside ASCII are not special to the matcher`,
 			"reference: dynamic programming over the tokenized pattern (refmodel.GlobMatch), independent of the backtracking matcher",
